@@ -11,7 +11,11 @@ import genparsed
 
 # GenParsed: the generated parsed tables this check consumes are what the parser model makes of the
 # generated pattern strings (a parser change that alters how a shipped pattern parses breaks it)
-PROOFS = ["FGVerif.Proofs.C14", "FGVerif.Proofs.C14Iter", genparsed.MODULE]
+# C14Enum / C14EnumMultiset / C14EnumValid: the exact-enumeration theorems (`enumeration_exact`, `enumeration_total`,
+# `enumeration_multiset`, `mem_allChoices_iff`, `allChoices_nodup`) about the declarative choice combinations of
+# Model/C14Choice.lean
+PROOFS = ["FGVerif.Proofs.C14", "FGVerif.Proofs.C14Iter", "FGVerif.Proofs.C14Enum", "FGVerif.Proofs.C14EnumMultiset", "FGVerif.Proofs.C14EnumValid",
+          genparsed.MODULE]
 
 
 # ---------------------------------------------------------------------------
@@ -259,6 +263,16 @@ def run(tier, seed):
                 # are the decidable hypotheses of the C14 theorems true on the inputs that produce results?
                 if not (isinstance(o.model, list) and o.model[:1] == ["raised"]):
                     r.count("theorem_hypotheses_hold" if o.extra[3] == "1" else "theorem_hypotheses_FALSE_on_input_with_results")
+            # `enumeration_exact` clause (Model/C14Choice.lean: allChoices … |>.map expand as a multiset of canonical graphs
+            # against the implementation's enumeration; evaluated for <= 400 results; part of spec_impl)
+            if o.ok_reply and o.case.tags and o.case.tags[0] in ("build", "generate") and o.case.in_domain:
+                idx = 4
+                if len(o.extra) > idx:
+                    lvl = "build_graphs" if o.case.tags[0] == "build" else "iter(Proxy)"
+                    v = o.extra[idx]
+                    r.count("enumeration_exact_clause[%s]:%s" % (lvl, {"1": "holds_on_impl_output", "0": "FAILS_on_impl_output"}.get(v, "not_evaluated(raises_or_>400_results)")))
+                    if o.case.tags[0] == "build" and len(o.extra) > 5 and o.extra[5] == "0":
+                        r.count("enumeration_exact_clause[build_graphs]:FAILS_ON_MODEL_OUTPUT(theorem_contradicted)")
             if o.ok_reply and o.case.tags and o.case.tags[0] == "generate" and len(o.extra) >= 3:
                 # conservation at the iter(Proxy) level: how often does the side condition (no parallel bonds left
                 # to collapse in the build_graphs result) fail?  The driver applies the conservation check to the
@@ -292,6 +306,11 @@ def run(tier, seed):
         ({"x": ["C"], "g": ["N", "O"]}, "C{zz,g}{x}"),              # unknown label ignored
         ({"g": ["C", "CC", "CCC", "CCCC", "N"]}, "{g}C{g}"),        # group with more than 3 graphs
         ({"g": ["CC", "N"]}, "C" * 42 + "{g}"),                     # results with >= 41 nodes: aam = id + 1 beyond id 40 (m26)
+        # enumeration_exact witnesses: two graphs of a group with the same symbols and bonds but a different attachment
+        # (`CN` / `NC`: anchor 0 is C resp. N): taking one twice and never the other keeps the count and the multiset of
+        # (symbols, bond labels) signatures; only the multiset of GRAPHS tells (clause enumeration_exact)
+        ({"g": ["O", "CN", "NC"]}, "S{g}"),
+        ({"g": ["O", "CN", "NC"], "h": ["{g}C", "P"]}, "{h}S{g}"),
     ]
     n_cfg = 140 if tier == "quick" else 1500
     for k in range(n_cfg + len(corpus)):
@@ -406,6 +425,14 @@ def run(tier, seed):
         "model's, the clause restricted to samples without parallel bonds in their pre-image holds (model flag sideOk/noParallel) "
         "and the model counts at least one pre-image with parallel bonds; every other failure is a VIOLATION.  The theorems "
         "(C14.iter_conserved ...) prove conservation under the side condition only",
+        "ENUMERATION CLAUSE ('exactly one graph per combination of choices'): Model/C14Choice.lean defines the choice combinations "
+        "of a pattern (choice trees; allChoices = product over group nodes / concatenation over the graphs of a group) and the "
+        "expansion of one combination without the working-set loop; C14.enumeration_exact / enumeration_total prove the loop's "
+        "results to be a permutation of allChoices.map expand (every combination once, nothing else; allChoices = the valid "
+        "combinations (inductive predicate ValidCombo), each once: C14.mem_allChoices_iff / allChoices_nodup), C14.enumeration_multiset the "
+        "'multiset over the whole enumeration' clause.  The driver evaluates the same clause on every implementation output with "
+        "<= 400 results (multiset of canonical graphs; counts under enumeration_exact_clause[*]); a duplicated + a dropped "
+        "combination is a spec failure even when count and per-result conservation hold",
         "graph.copy() in replace_next_node is not modelled (unobservable: compose re-adds all edges; op 'next' compares exact adjacency)",
         "the generated tables (harness/gen_tables_c14.py) are the effective Proxy.__groups dictionaries; label references are "
         "extracted with the real parser and cross-checked by the driver against the parsed configuration on every run",
@@ -417,10 +444,11 @@ def run(tier, seed):
              "bounded to <= 400 (quick) / 1500 (thorough) results; observable = the whole enumeration as a sorted list of canonical graphs "
              "for build_graphs and iter(Proxy), exact graphs for replace_next_node; the generated tables of the shipped collections; "
              "thorough: DielsAlderProxy(neg_sample=False/True) completely (fingerprints one by one + per-result spec)",
-        checker_cmd="cd lean && lake build FGVerif.Proofs.C14 && lake env lean FGVerif/Audit/C14.lean && " + genparsed.CHECKER_CMD,
+        checker_cmd="cd lean && lake build FGVerif.Proofs.C14 FGVerif.Proofs.C14Enum FGVerif.Proofs.C14EnumMultiset FGVerif.Proofs.C14EnumValid && lake env lean FGVerif/Audit/C14.lean && " + genparsed.CHECKER_CMD,
         explanation="theorems in lean/FGVerif/Proofs/C14*.lean about Model/C14.lean (+C13); table obligations da_count_pos/neg by kernel "
                     "evaluation of the count formula on the generated tables; model tied to fgutils.proxy by differential testing; "
-                    "executable spec (count formula, no group label left, contiguous ids, conservation at the build_graphs level and - "
+                    "executable spec (count formula, exact enumeration = multiset of canonical graphs of all choice combinations "
+                    "(C14.enumeration_exact/_total/_multiset), no group label left, contiguous ids, conservation at the build_graphs level and - "
                     "for ALL samples, symbols and bond labels - at the iter(Proxy) level; failures caused by the collapse of parallel bonds are "
                     "the recorded known finding K7, decided per case) on implementation outputs; "
                     + genparsed.EXPLANATION + " — for C14: GenParsed.da_pos_refs_parsed / da_neg_refs_parsed / common_refs_parsed "
